@@ -16,7 +16,8 @@ Judge(e) ==
       [] e.op = "contains"   -> IF ContainsOk(T, e.key, e.out) THEN "ok" ELSE "C19:contains"
       [] e.op = "from_reply" -> IF FromReplyOk(T, e.tok, e.out) THEN "ok" ELSE "C19:from-reply"
       [] e.op = "type_code"  -> IF TypeOfCodeOk(T, e.tok, e.out) THEN "ok" ELSE "C19:type-code"
-      [] e.op = "status"     -> IF StatusTextOk(e.n, e.has = 1, e.ttext, e.text) THEN "ok" ELSE "C19:status-text"
+      [] e.op = "status"     -> IF ~StatusTextOk(e.n, e.has = 1, e.ttext, e.text) THEN "C19:status-text"
+                                ELSE IF ~StatusMeaningOk(e.n, e.text) THEN "C19:status-meaning" ELSE "ok"
       [] e.op = "ext"        -> IF ExtTextOk(e.ttext, e.text) THEN "ok" ELSE "C19:status-text"
       [] e.op = "truth"      -> IF (e.out = 1) = (e.value_none = 0 /\ e.error_none = 1) THEN "ok" ELSE "C03:truthiness"
       [] OTHER               -> "MACHINERY:unknown-op"
